@@ -70,7 +70,7 @@ class TLCResult:
             ("Finished in" in out and "Error:" not in out and rc == 0)
         self.violated = re.findall(r"Error: Invariant (\w+) is violated", out)
         self.violated += re.findall(r"Error: Action property (\w+) is violated", out)
-        if "Temporal properties were violated" in out:
+        if re.search(r"Temporal propert(y|ies) .*violated", out):
             self.violated.append("TEMPORAL")
         if "Error: Deadlock reached" in out:
             self.violated.append("DEADLOCK")
@@ -82,12 +82,16 @@ class TLCResult:
             self.error = m.group(1) if m else "unknown TLC failure rc=%d" % rc
 
     def printed(self, tag):
-        """values printed with PrintT(<<"TAG", x>>); x is returned as raw text"""
+        """values printed with PrintT(<<"TAG", x>>); x is returned as raw text.  TLC pretty-prints
+        tuples wider than 80 columns over several lines (`<< "TAG",\n   1,\n   "why" >>`): both
+        layouts are read, wrapped ones are joined."""
         res = []
-        pre = '<<"%s", ' % tag
-        for line in self.out.splitlines():
-            if line.startswith(pre) and line.endswith(">>"):
-                res.append(line[len(pre):-2])
+        pat = re.compile(r'^<<\s*"%s",\s*(.*?)\s*>>[ \t]*$' % re.escape(tag), re.M | re.S)
+        for m in pat.finditer(self.out):
+            raw = m.group(1)
+            if "\n" in raw:
+                raw = re.sub(r"\s*\n\s*", " ", raw)
+            res.append(raw)
         return res
 
     def printed_json(self, tag):
